@@ -718,7 +718,10 @@ pub fn run(ctx: &Ctx) -> (Acc, Report) {
                                     materialise(&st.disk, &dir);
                                     let fs = FileSystem::new(&dir).expect("fs");
                                     let mut b = Vec::new();
-                                    n_rd += read_set(&fs, &st.model, u, &mut b);
+                                    match std::panic::catch_unwind(std::panic::AssertUnwindSafe(|| read_set(&fs, &st.model, u, &mut b))) {
+                                        Ok(n) => n_rd += n,
+                                        Err(_) => b.push(Bad { kind: "backend-panics".into(), msg: format!("a read of the read set panicked at {}", crate::svc::LAST_PANIC_LOCATION.with(|c| c.borrow().clone())) }),
+                                    }
                                     for x in b {
                                         bads.push(("<read set>".to_owned(), x, path_vec(&st.path)));
                                     }
